@@ -436,7 +436,9 @@ def clean_type_string(chk, dprog, cfg):
     b = dprog.body(dprog.fn("scale_info_derive::clean_type_string"))
     n = 0
     NEUTRAL = {"deref", "as_str", "borrow", "to_string", "to_owned", "into", "from", "clone", "as_ref", "new", "iter", "into_iter", "fold", "for_each", "next",
-               "call_once", "call_mut", "call", "drop", "as_bytes", "len", "is_empty"}
+               "call_once", "call_mut", "call", "drop", "as_bytes", "len", "is_empty",
+               # observers: they read the string and decide nothing about its content
+               "contains", "starts_with", "ends_with", "find", "rfind", "is_ascii", "chars", "bytes", "eq", "ne"}
     tables = []
     for p in cd.closure_tree(dprog, b.path):
         cb = dprog.body(p)
@@ -475,7 +477,7 @@ def clean_type_string(chk, dprog, cfg):
 def emission_order(chk, dprog, cfg):
     chk.rule("R9.2", "order and selection: type parameters come from generics.type_params(), fields from fields.iter().filter(!should_skip), variants from "
              "variants.into_iter().filter(!should_skip).enumerate(), doc lines from attrs.iter().filter_map(..): no reordering / dropping adapter on any of the flows")
-    denied = {"rev", "skip", "take", "step_by", "skip_while", "take_while", "zip", "cycle", "last", "nth", "peekable", "scan", "map_while", "sort", "sort_by", "sort_by_key", "reverse", "dedup", "retain", "truncate", "pop", "swap"}
+    denied = {"rev", "skip", "take", "step_by", "skip_while", "take_while", "zip", "cycle", "last", "nth", "next_if", "next_if_eq", "scan", "map_while", "sort", "sort_by", "sort_by_key", "reverse", "dedup", "retain", "truncate", "pop", "swap"}
     owners = [p for p in dprog._bodies_raw if mir.strip_generics(p).startswith(cd.D + "TypeInfoImpl::")]
     bad = []
     n = 0
